@@ -55,8 +55,8 @@ func init() {
 			Expect: "channel-update-admission"},
 
 		{Name: "closed-cu-zombie-verified-under-node-1-key-always", File: "discovery/gossiper.go",
-			Old:    "\terr := netann.VerifyChannelUpdateSignature(msg, pubKey)\n",
-			New:    "\tsigner, _ := chanInfo.NodeKey1()\n\terr := netann.VerifyChannelUpdateSignature(msg, signer)\n",
+			Old:    "\terr := netann.ValidateChannelUpdateAnn(pubKey, 0, msg)\n",
+			New:    "\tsigner, _ := chanInfo.NodeKey1()\n\terr := netann.ValidateChannelUpdateAnn(signer, 0, msg)\n",
 			Expect: "channel-update-admission"},
 
 		{Name: "closed-cu-zombie-falls-back-to-other-nodes-key", File: "discovery/gossiper.go",
